@@ -747,7 +747,8 @@ void bn_rec_jsf(int8_t *jsf, size_t *len, const bn_t k, const bn_t l) {
 	int8_t u0, u1, d0, d1;
 	int i, j, offset;
 
-	if (*len < (2 * bn_bits(k) + 1)) {
+	/* Two rows of up to max(bits) + 1 digits, the second starts at max(bits) + 1. */
+	if (*len < 2 * (RLC_MAX(bn_bits(k), bn_bits(l)) + 1)) {
 		*len = 0;
 		RLC_THROW(ERR_NO_BUFFER);
 		return;
